@@ -42,3 +42,5 @@ pub fn parse_opts() -> Opts {
     std::fs::create_dir_all(&o.out).unwrap();
     o
 }
+pub mod egg;
+pub mod egg_gen;
